@@ -20,6 +20,10 @@ func init() {
 var providerPkgs = []string{"pkg/database", "pkg/redis", "pkg/mongodb", "pkg/llm", "pkg/httpclient"}
 
 func runC12(c *Ctx) {
+	c.rule("C12-R7", "BND: in the provider packages the interpreter can reach (pkg/redis, pkg/mongodb, pkg/database) every index, slice expression and make whose bound derives from an integer parameter of an exported method (GlyphLang integers arrive there through CallMethod) is proven in range by dominating comparisons on the very values used (0 <= low <= high <= len, make length >= 0): an allow-listed method with well-typed arguments must not crash the runtime (`lrange(k, 5, 10)` on a 3-item list)")
+	bndParamSources = true
+	boundsRule(c, "C12-R7", []string{"pkg/redis", "pkg/mongodb", "pkg/database"}, 2)
+	bndParamSources = false
 	// ---- R1 single reflective gate
 	c.rule("C12-R1", "WCS: reflect.Value.MethodByName / Method / Call / CallSlice are used in pkg/interpreter only inside CallMethod and HasMethod, and HasMethod never calls; no other package of the provider path performs reflective calls on GlyphLang-supplied names")
 	reflCalls := map[string]bool{"reflect.Value.MethodByName": true, "reflect.Value.Method": true, "reflect.Value.Call": true, "reflect.Value.CallSlice": true}
